@@ -319,9 +319,22 @@ Section Program.
     | _, _ => xs
     end.
 
+  (* corgi decides "frozen" while walking the list and takes each gradient as it goes: a later handle of a node
+     whose gradient was already taken sees none and is frozen *)
+  Fixpoint frozen_flags (s : state) (taken : list nat) (params : list handle) : list bool :=
+    match params with
+    | [] => []
+    | h :: t =>
+      match grad_of s h with
+      | None => true :: frozen_flags s taken t
+      | Some _ => if existsb (Nat.eqb (e_node h)) taken then true :: frozen_flags s taken t
+                  else false :: frozen_flags s (e_node h :: taken) t
+      end
+    end.
+
   Definition gd_update (s : state) (lr : F) (params : list handle)
     : option (state * list handle) :=
-    let frozen := map (fun h => match grad_of s h with None => true | Some _ => false end) params in
+    let frozen := frozen_flags s [] params in
     let unfrozen := map fst (filter (fun p : handle * bool => negb (snd p)) (combine params frozen)) in
     pv <- mapM (fun h => a <- h_arr s h ;; Some (vals a)) unfrozen ;;
     pg <- mapM (fun h => g <- grad_of s h ;; Some (vals g)) unfrozen ;;
